@@ -158,8 +158,12 @@ CONFIG = {
         ],
     },
     "C13": {
-        "rule": CHAN_MODEL + "non-trivial = a sequence containing rollback, partial re-read (>=1, < pending), second rollback, then commit; or a Close/cancel with a Get pending; distinct = hash of the executed op trace.",
-        "jobs": [chanstep("C13", 24000, 800000)],
+        "rule": CHAN_MODEL + "non-trivial = a sequence containing rollback, partial re-read (>=1, < pending), second rollback, then commit; or a Close/cancel with a Get pending; distinct = hash of the executed op trace. "
+                "Plus chanlin: free-running concurrent programs (2-4 goroutines x 1-9 Get/Commit/Rollback/Buffer/Close ops, a concurrent feeder whose sends are operations too, source cap 0/1/4/16) "
+                "whose recorded call/return history is checked for linearizability against the same sequential model by porcupine (a Get error is admissible only if its own context was "
+                "cancelled or the Channel is closed); non-trivial = >=6 operations with operations of different goroutines overlapping.",
+        "jobs": [chanstep("C13", 24000, 800000),
+                 {"name": "chanlin", "test": "TestChanLin", "checks": {"quick": 40000, "thorough": 2000000}, "shards": {"quick": 8, "thorough": 16}, "env": {"VKIT_PROFILE": "C13"}}],
     },
     "C01": {
         "rule": BUF_MODEL + "non-trivial = >=2 consumers alive at once AND >=1 eviction while a consumer was open AND >=1 batch of >=2 values; distinct = hash of the executed op trace." + BUF_FREE,
